@@ -240,6 +240,43 @@ class NumpyTheory:
         out.sel, out.inv = sel, inv
         return out
 
+    def nd_slice_assign(self, base, tgt, val, st):
+        """x[a:b] = v (array of the slice's length, or a scalar), in place"""
+        cb = self.acell(base, st)
+        if cb.etype not in ('int', 'real'):
+            return False
+        n = cb.length
+        sl = tgt.slice
+
+        def clipb(e, default):
+            if e is None:
+                return default
+            t = as_int(self.ev(e, st))
+            t2 = z3.If(t < 0, t + n, t)
+            return zmin(zmax(t2, I(0)), n)
+        a, b = z3.simplify(clipb(sl.lower, I(0))), z3.simplify(clipb(sl.upper, n))
+        if sl.lower is not None:
+            lo_ = const_int(as_int(self.ev(sl.lower, st)))
+            if lo_ is not None and lo_ >= 0 and st.entails(n >= lo_):
+                a = I(lo_)          # min(c, n) == c on this path: keeps the index arithmetic linear for the triggers
+        ln = z3.simplify(zmax(b - a, I(0)))
+        A = cb.leaves[0]
+        newA = z3.Array(fresh_name('slset'), z3.IntSort(), A.sort().range())
+        j = z3.Int(fresh_name('j'))
+        self.used('slice assignment x[a:b] = v')
+        if isinstance(val, VList):
+            cv = self.acell(val, st)
+            if cv.etype != cb.etype:
+                return False
+            self.oblige(st, 'pre', 'slice-assignment-same-length', cv.length == ln, tgt, raises='ValueError')
+            st.assume(z3.ForAll([j], z3.Implies(z3.And(j >= 0, j < n), newA[j] == z3.If(z3.And(j >= a, j < b), cv.leaves[0][j - a], A[j]))))
+        else:
+            v = as_int(val) if cb.etype == 'int' else as_real(val)
+            st.assume(z3.ForAll([j], z3.Implies(z3.And(j >= 0, j < n), newA[j] == z3.If(z3.And(j >= a, j < b), v, A[j]))))
+        st.heap.lists[base.ref] = ListCell(cb.etype, n, [newA])
+        self.writeback(base, st)
+        return True
+
     def nd_setitem(self, base, idxv, val, st, node):
         """arr[idx array] = v (scatter) / arr[bool array] = scalar; in place"""
         if not isinstance(base, VList) or not isinstance(idxv, VList):
@@ -314,7 +351,15 @@ class NumpyTheory:
         if any(k not in self.ALLOWED_KW.get(name, ()) for k in kw):
             return None
         self.used(name)
-        return fn(args, kw, st, node)
+        mark = len(st.pc)
+        r = fn(args, kw, st, node)
+        for t_ in st.pc[mark:]:          # label the theory facts of this call so that `using` can name them: 'theory:np.argsort', ...
+            if getattr(t_, '_label', None) is None:
+                try:
+                    t_._label = 'theory:' + name
+                except Exception:
+                    pass
+        return r
 
     def np_np_asarray(self, args, kw, st, node):
         return self.as_array(args[0], st)
